@@ -189,6 +189,10 @@ var c19Damage = []func(r *fw.Rand, s string) string{
 		}
 		return "(" + s[:r.Intn(len(s))]
 	},
+	func(r *fw.Rand, s string) string { return "(1 +\n 命运骰 + #) + " + s },
+	func(r *fw.Rand, s string) string { return "[命运骰, 骰20面, 2 #]" + s },
+	func(r *fw.Rand, s string) string { return "(命运骰+骰6面+" + s },
+	func(r *fw.Rand, s string) string { return "(" + s + " + 骰100面 * (命运骰 - " },
 }
 
 func c19Input(r *fw.Rand) string {
@@ -224,6 +228,11 @@ func c19Parse(lang int, in string) (string, any) {
 	vm := ds.NewVM()
 	vm.Config.ParseErrorLanguage = lang
 	vm.Config.ParseExprLimit = 10000000
+	// registered custom syntaxes with multi-byte tokens: positions after them are still
+	// counted in characters
+	_ = vm.RegCustomDice(`命运骰|骰(\d+)面`, func(ctx *ds.Context, groups []string, _ any) (*ds.VMValue, string, error) {
+		return ds.NewIntVal(1), "", nil
+	})
 	var err error
 	pv, _ := fw.Guard(func() { err = vm.Parse(in) })
 	if pv != nil {
